@@ -17,6 +17,8 @@ Every call is made twice with the same seed (the global numpy generator is re-se
 in between); seeds are passed as Python int, numpy int64/int32/uint8/uint64 scalars or 0-d integer
 arrays, and for a non-Python-int seed a third call uses int(seed) and must give the same tensor: "same result" and "input bit-identical afterwards" enter the case as booleans.
 """
+import contextlib
+import io
 import itertools
 import json
 import math
@@ -28,6 +30,8 @@ import numpy
 import torch
 
 from . import common as C
+
+torch.set_num_threads(1)      # tiny tensors only: intra-op threads just spin under load
 
 PID = 'C02'
 IMPORTS = ['Base.OneHot', 'C02.Model', 'C02.Spec']
@@ -75,22 +79,26 @@ def column(A, k):
 def to_tensor(A, seqs, dtype=torch.int8):
     B = len(seqs)
     L = len(seqs[0]) if B else 0
-    X = torch.zeros(B, A, L, dtype=dtype)
-    for b, s in enumerate(seqs):
-        for p, k in enumerate(s):
-            if k >= 0:
-                X[b, k, p] = 1
-            else:
-                X[b, :, p] = torch.tensor(column(A, k), dtype=dtype)
-    return X
+    arr = numpy.zeros((B, A, L), dtype=numpy.int64)
+    if B and L:
+        codes = numpy.array(seqs, dtype=numpy.int64)
+        b, p = numpy.nonzero(codes >= 0)
+        arr[b, codes[b, p], p] = 1
+        for b, p in zip(*numpy.nonzero(codes < 0)):
+            arr[b, :, p] = column(A, int(codes[b, p]))
+    return torch.from_numpy(arr).to(dtype)
 
 
 def from_seq(Y):
     """(A, L) tensor -> ('codes', [k...]) when it is exactly one-hot, else ('raw', [L][A])"""
     Y = Y.detach().cpu()
-    if Y.is_floating_point() and not torch.equal(Y, Y.round()):
-        return None
-    Yi = Y.to(torch.int64)
+    if Y.is_floating_point():
+        Yd = Y.double()
+        if not torch.equal(Yd, Yd.round()):
+            return None
+        Yi = Yd.to(torch.int64)
+    else:
+        Yi = Y.to(torch.int64)
     A, L = Yi.shape
     codes = Yi.argmax(dim=0)
     back = torch.zeros_like(Yi)
@@ -259,30 +267,181 @@ def pick_seed(rng, big=True):
     return v, t
 
 
-def call_once(inp, X, as_int=False):
+DTYPES = {'i8': torch.int8, 'u8': torch.uint8, 'i16': torch.int16, 'i32': torch.int32, 'i64': torch.int64,
+          'f16': torch.float16, 'bf16': torch.bfloat16, 'f32': torch.float32, 'f64': torch.float64,
+          'bool': torch.bool}                     # bool: shuffle only (argmax rejects it)
+XFORMS = ('contig', 'transposed', 'sliced', 'expanded', 'grad')    # + 'numpy', 'list': rejected forms
+
+
+def n_of(inp):
+    """the n the call passes: an int, or 'omit' (default: shuffle 1, dinucleotide_shuffle 20)"""
+    if inp['kind'] == 'enum':
+        return 'omit' if inp.get('n') == 'omit' else (len(inp['plan'][0]) if inp['plan'] else 0)
+    return inp['n']
+
+
+def eff(inp):
+    """the integers (start, end, n) the call denotes: omitted arguments take the documented defaults;
+    a None bound (dinucleotide_shuffle only) is the Python slice's open end"""
+    L = len(inp['seqs'][0]) if inp['seqs'] else 0
+    s, e, n = inp['start'], inp['end'], n_of(inp)
+    s = 0 if s in ('omit', 'none') else s
+    e = -1 if e == 'omit' else (L if e == 'none' else e)
+    if n == 'omit':
+        n = 1 if inp['kind'] == 'shuf' else 20
+    return s, e, n
+
+
+def build_X(inp, canonical=False):
+    """the X argument in the requested memory layout / container, and the objects whose contents
+    must be unchanged afterwards"""
+    A, seqs = inp['A'], inp['seqs']
+    dtype = DTYPES[inp.get('dtype', 'i8')]
+    form = inp.get('xform', 'contig')
+    if canonical and form in XFORMS:
+        form = 'contig'
+    B = len(seqs)
+    L = len(seqs[0]) if B else 0
+    if form == 'expanded':
+        base = to_tensor(A, seqs[:1], dtype)
+        return base.expand(B, -1, -1), [base]
+    X = to_tensor(A, seqs, dtype)
+    if form == 'transposed':
+        X = X.permute(0, 2, 1).contiguous().permute(0, 2, 1)
+    elif form == 'sliced':
+        big = torch.ones(B + 1, A, L + 5, dtype=dtype)
+        big[1:, :, 2:2 + L] = X
+        return big[1:, :, 2:2 + L], [big]
+    elif form == 'grad':
+        X.requires_grad_()
+    elif form == 'numpy':
+        X = X.numpy()
+    elif form == 'list':
+        X = X.tolist()
+    return X, [X]
+
+
+def snapshot(objs):
+    out = []
+    for o in objs:
+        if isinstance(o, torch.Tensor):
+            out.append(o.detach().clone())
+        elif isinstance(o, numpy.ndarray):
+            out.append(o.copy())
+        else:
+            out.append(json.dumps(o))
+    return out
+
+
+def unchanged_all(objs, snaps):
+    for o, c in zip(objs, snaps):
+        if isinstance(o, torch.Tensor):
+            if not torch.equal(o.detach(), c):
+                return False
+        elif isinstance(o, numpy.ndarray):
+            if o.dtype != c.dtype or o.shape != c.shape or not (o == c).all():
+                return False
+        elif json.dumps(o) != c:
+            return False
+    return True
+
+
+def build_kwargs(inp, canonical=False):
+    np_pos = inp.get('pos_type') == 'np' and not canonical
+    kw = {}
+    for name in ('start', 'end'):
+        v = inp[name]
+        if v == 'none':
+            kw[name] = None
+        elif v != 'omit':
+            kw[name] = numpy.int64(v) if np_pos else int(v)
+    n = n_of(inp)
+    if n != 'omit':
+        kw['n'] = numpy.int64(n) if (inp.get('n_type') == 'np' and not canonical) else int(n)
+    if inp.get('verbose'):
+        kw['verbose'] = True
+    return kw
+
+
+def build_seed(inp, canonical=False):
+    """(kwargs for random_state, objects to keep unchanged)"""
+    rs = inp.get('rs', 'seed')
+    if inp['kind'] == 'enum':
+        return {'random_state': 0}, []
+    if rs == 'none':
+        return {}, []
+    if rs == 'none_explicit':
+        return {'random_state': None}, []
+    if rs in ('object', 'reused') and not canonical:
+        return {'random_state': numpy.random.RandomState(int(inp['seed']))}, []
+    v = seed_value(inp, canonical)
+    return {'random_state': v}, ([v] if isinstance(v, numpy.ndarray) else [])
+
+
+def has_canonical(inp):
+    """the call has a plain twin (contiguous X, Python ints everywhere) that denotes the same
+    (input, region, n, seed) and therefore must return the same tensor"""
+    if inp['kind'] == 'enum' or inp.get('rs', 'seed') not in ('seed', 'object'):
+        return False
+    return (inp.get('seed_type', 'int') != 'int' or inp.get('pos_type') == 'np' or inp.get('n_type') == 'np'
+            or inp.get('xform', 'contig') in XFORMS[1:] or inp.get('rs') == 'object')
+
+
+_Z = None
+
+
+def interfere(inp):
+    """an unrelated call between the two repetitions (other alphabet, length, n, seed): nothing of
+    it may leak into the repetition"""
+    from tangermeme import ersatz
+    global _Z
+    if _Z is None:
+        _Z = to_tensor(5, [[0, 1, 2, 3, 4, 0, 2, 4, 1], [4, 4, 0, 1, 0, 2, 3, 3, 1]])
+    Z = _Z
+    try:
+        ersatz.shuffle(Z, start=1, end=8, n=2, random_state=5)
+        if inp['kind'] == 'obs':          # compiled kernel: only inside the worker process
+            ersatz.dinucleotide_shuffle(Z, start=0, end=9, n=3, random_state=99)
+    except Exception:
+        pass
+
+
+def call_once(inp, canonical=False):
+    """-> (result tensor, objects that must be unchanged, their snapshots)"""
     from tangermeme import ersatz
     kind = inp['kind']
-    if kind == 'shuf':
-        return ersatz.shuffle(X, start=inp['start'], end=inp['end'], n=inp['n'],
-                              random_state=seed_value(inp, as_int))
-    if kind == 'obs':
-        return ersatz.dinucleotide_shuffle(X, start=inp['start'], end=inp['end'], n=inp['n'],
-                                           random_state=seed_value(inp, as_int))
-    # enum: pure-Python kernel + planned draws, inside the real API function
-    src = Planned(inp['plan'])
-    kernel = ersatz._fast_shuffle
-    saved = numpy.random.permutation
-    ersatz._fast_shuffle = kernel.py_func
-    numpy.random.permutation = src
+    X, keep = build_X(inp, canonical)
+    kw = build_kwargs(inp, canonical)
+    skw, skeep = build_seed(inp, canonical)
+    kw.update(skw)
+    keep = keep + skeep
+    snaps = snapshot(keep)
+    sink = io.StringIO()
     try:
-        Y = ersatz.dinucleotide_shuffle(X, start=inp['start'], end=inp['end'],
-                                        n=len(inp['plan'][0]) if inp['plan'] else 0, random_state=0)
+        with contextlib.redirect_stdout(sink):
+            if kind == 'shuf':
+                if inp.get('rs') == 'reused' and not canonical:
+                    ersatz.shuffle(X, **kw)            # the same RandomState object goes on
+                Y = ersatz.shuffle(X, **kw)
+            elif kind == 'obs':
+                Y = ersatz.dinucleotide_shuffle(X, **kw)
+            else:
+                # enum: pure-Python kernel + planned draws, inside the real API function
+                src = Planned(inp['plan'])
+                kernel = ersatz._fast_shuffle
+                saved = numpy.random.permutation
+                ersatz._fast_shuffle = kernel.py_func
+                numpy.random.permutation = src
+                try:
+                    Y = ersatz.dinucleotide_shuffle(X, **kw)
+                finally:
+                    numpy.random.permutation = saved
+                    ersatz._fast_shuffle = kernel
+                if src.i != len(src.queue):
+                    raise RuntimeError('verif: %d of %d planned draws used' % (src.i, len(src.queue)))
     finally:
-        numpy.random.permutation = saved
-        ersatz._fast_shuffle = kernel
-    if src.i != len(src.queue):
-        raise RuntimeError('verif: %d of %d planned draws used' % (src.i, len(src.queue)))
-    return Y
+        ok_un = unchanged_all(keep, snaps)
+    return Y, ok_un
 
 
 def run_impl(inp):
@@ -339,24 +498,26 @@ def worker_main():
 
 
 def run_local(inp):
-    A = inp['A']
-    dtype = torch.float32 if inp.get('dtype') == 'f32' else torch.int8
-    X = to_tensor(A, inp['seqs'], dtype)
-    X0 = X.clone()
     res = []
-    # two calls with the seed as given; when it is not a Python int, a third with int(seed):
-    # equal integer values are the same seed
-    typed = inp['kind'] != 'enum' and inp.get('seed_type', 'int') != 'int'
-    for rep in range(3 if typed else 2):
+    unchanged = True
+    # two calls in the form given, an unrelated call in between; when the call has a plain twin
+    # (contiguous X, Python ints) a third call in that form: all must return the same tensor
+    reps = 3 if has_canonical(inp) else 2
+    for rep in range(reps):
         numpy.random.seed(1234567 + 7919 * rep)      # the result must not depend on the global state
+        if rep == 1:
+            interfere(inp)
         try:
-            Y = call_once(inp, X, as_int=(rep == 2))
+            Y, un = call_once(inp, canonical=(rep == 2))
+            unchanged = unchanged and un
             enc = canon(Y, len(inp['seqs']))
             res.append(('ok', enc if enc is not None else 'shape'))
         except Exception as e:
             res.append(('raise', type(e).__name__))
-    unchanged = bool(torch.equal(X, X0))
-    same = all(r == res[0] for r in res[1:])
+    if inp.get('rs') in ('none', 'none_explicit'):
+        same = res[0][0] == res[1][0]                # no seed: only "returns / raises" is repeatable
+    else:
+        same = all(r == res[0] for r in res[1:])
     ok = res[0][0] == 'ok'
     return {'ok': ok, 'Y': res[0][1] if ok else None, 'err': None if ok else res[0][1],
             'unchanged': unchanged, 'same': same}
@@ -368,20 +529,18 @@ def run_local(inp):
 def replay_shuffle(inp):
     """the permutations shuffle draws, when its guards pass (else [] - the model rejects too)"""
     L = len(inp['seqs'][0]) if inp['seqs'] else 0
-    end = inp['end']
+    start, end, n = eff(inp)
     if end < 0:
         end = L + 1 + end
-    start = inp['start']
-    n = inp['n']
     if end <= start or end > L or start < 0 or n <= 0 or n > 64:
         return [[] for _ in range(max(0, min(n, 64)))]
-    rs = numpy.random.RandomState(inp['seed'])
+    rs = numpy.random.RandomState(int(inp['seed']))
     perms = []
-    for _ in range(n):
+    for i in range(2 * n if inp.get('rs') == 'reused' else n):
         idxs = numpy.arange(end - start)
         rs.shuffle(idxs)
         perms.append(idxs.tolist())
-    return perms
+    return perms[-n:]
 
 
 def outcome_lit(inp, out, transpose):
@@ -405,15 +564,22 @@ def outcome_lit(inp, out, transpose):
 
 def coq_case(inp, out):
     A = inp['A']
-    X = tensor_lit(A, inp['seqs'])
+    if inp.get('xform') in ('numpy', 'list'):
+        # not a tensor: both functions reject it; the model is handed an (invalid) empty batch
+        X = '(T %s %s [])' % (C.nat(A), C.nat(len(inp['seqs'][0]) if inp['seqs'] else 0))
+    else:
+        X = tensor_lit(A, inp['seqs'])
     kind = inp['kind']
-    if kind == 'shuf':
+    start, end, n = eff(inp)
+    if kind == 'shuf' and inp.get('rs') in ('none', 'none_explicit'):
+        call = '(CShufObs %s %s %s %s)' % (X, C.z(start), C.z(end), C.nat(max(n, 0)))
+        o = outcome_lit(inp, out, True)
+    elif kind == 'shuf':
         perms = replay_shuffle(inp)
-        call = '(CShuf %s %s %s %s)' % (X, C.z(inp['start']), C.z(inp['end']),
-                                        C.lst([natl(p) for p in perms]))
+        call = '(CShuf %s %s %s %s)' % (X, C.z(start), C.z(end), C.lst([natl(p) for p in perms]))
         o = outcome_lit(inp, out, True)
     elif kind == 'obs':
-        call = '(CDinucObs %s %s %s %s)' % (X, C.z(inp['start']), C.z(inp['end']), C.nat(max(inp['n'], 0)))
+        call = '(CDinucObs %s %s %s %s)' % (X, C.z(start), C.z(end), C.nat(max(n, 0)))
         o = outcome_lit(inp, out, False)
     else:
         plan = inp['plan']
@@ -425,7 +591,7 @@ def coq_case(inp, out):
                                          ''.join(''.join('%x' % x for x in p) + 'f' for p in flat))
         else:
             sig = C.lst([C.lst([C.lst([natl(p) for p in sh]) for sh in ex]) for ex in plan])
-        call = '(CDinuc %s %s %s %s)' % (X, C.z(inp['start']), C.z(inp['end']), sig)
+        call = '(CDinuc %s %s %s %s)' % (X, C.z(start), C.z(end), sig)
         o = outcome_lit(inp, out, False)
     return '(%s, %s, %s, %s)' % (call, o, C.boolean(out['unchanged']), C.boolean(out['same']))
 
@@ -435,12 +601,13 @@ def coq_case(inp, out):
 
 def region_of(inp):
     L = len(inp['seqs'][0]) if inp['seqs'] else 0
+    start, end, _n = eff(inp)
     if inp['kind'] == 'shuf':
-        e = inp['end'] if inp['end'] >= 0 else L + 1 + inp['end']
-        if 0 <= inp['start'] < e <= L:
-            return inp['start'], e
+        e = end if end >= 0 else L + 1 + end
+        if 0 <= start < e <= L:
+            return start, e
         return 0, 0
-    return pyslice(L, inp['start'], inp['end'])
+    return pyslice(L, start, end)
 
 
 def nontrivial(inp, out):
@@ -452,8 +619,11 @@ def nontrivial(inp, out):
 
 def hist_key(inp, out):
     L = len(inp['seqs'][0]) if inp['seqs'] else 0
-    return '%s/%s/L%s' % (inp['kind'], ('crash' if out.get('err') else 'ok') if out['ok'] else out['err'],
-                          L if L <= 8 else ('9-40' if L <= 40 else '41+'))
+    forms = any(k in inp for k in ('xform', 'pos_type', 'n_type', 'rs', 'verbose')) or \
+        any(inp.get(k) in ('omit', 'none') for k in ('start', 'end', 'n')) or inp.get('dtype', 'i8') not in ('i8', 'f32')
+    return '%s%s/%s/L%s' % (inp['kind'], '+forms' if forms else '',
+                            ('crash' if out.get('err') else 'ok') if out['ok'] else out['err'],
+                            L if L <= 8 else ('9-40' if L <= 40 else '41+'))
 
 
 def tags(inp, out):
@@ -505,6 +675,81 @@ def rand_region(rng, L):
         b = rng.randint(min(L, a + 1), L)
         return a, b
     return rng.randint(-L - 2, L + 2), rng.randint(-L - 2, L + 2)
+
+
+def form_case(rng):
+    kind = rng.choice(['obs', 'obs', 'shuf', 'shuf', 'enum'])
+    dinuc = kind != 'shuf'
+    A = rng.choice([2, 3, 4, 4, 5])
+    L = rng.choice([4, 6, 8, 12, 12, 20, 40])
+    B = rng.randint(1, 3)
+    inp = {'kind': kind, 'A': A, 'n': rng.choice([1, 1, 1, 2, 3]), 'seed': rng.choice([0, 1, 2, 3]),
+           'seed_type': 'int'}
+    start, end = rand_region(rng, L)
+    if rng.random() < 0.4 or pyslice(L, start, end)[1] - pyslice(L, start, end)[0] < 3:
+        start, end = rng.choice([(0, L), (1, L), (0, L - 1), (1, -1)])
+    inp['start'], inp['end'] = start, end
+    devs = ['dtype', 'xform', 'pos_np', 'n_np', 'omit_start', 'omit_end', 'omit_both', 'omit_n',
+            'n0', 'seed_type', 'big_seed']
+    if dinuc:
+        devs += ['none_start', 'none_end', 'verbose']
+    if kind == 'shuf':
+        devs += ['rs_object', 'rs_reused', 'rs_none', 'rs_none_explicit']
+    if kind == 'obs':
+        devs += ['rs_none', 'rs_none_explicit']
+    same_seq = False
+    for d in rng.sample(devs, rng.choice([1, 1, 2])):
+        if d == 'dtype':
+            inp['dtype'] = rng.choice([k for k in DTYPES if not (dinuc and k == 'bool')])
+        elif d == 'xform':
+            inp['xform'] = rng.choice(XFORMS[1:])
+            same_seq = inp['xform'] == 'expanded'
+        elif d == 'pos_np':
+            inp['pos_type'] = 'np'
+        elif d == 'n_np':
+            inp['n_type'] = 'np'
+        elif d == 'omit_start':
+            inp['start'] = 'omit'
+        elif d == 'omit_end':
+            inp['end'] = 'omit'
+        elif d == 'omit_both':
+            inp['start'] = inp['end'] = 'omit'
+        elif d == 'omit_n':
+            inp['n'] = 'omit'
+        elif d == 'n0':
+            inp['n'] = 0
+        elif d == 'none_start':
+            inp['start'] = 'none'
+        elif d == 'none_end':
+            inp['end'] = 'none'
+        elif d == 'verbose':
+            inp['verbose'] = True
+        elif d == 'seed_type' and kind != 'enum':
+            inp['seed_type'] = rng.choice(SEED_TYPES[1:])
+        elif d == 'big_seed' and kind != 'enum':
+            inp['seed'] = rng.choice([255, 65536, 2 ** 31 - 10] + ([2 ** 31, 2 ** 32 - 1] if kind == 'shuf' else []))
+        elif d.startswith('rs_'):
+            inp['rs'] = d[3:]
+    if inp.get('xform') == 'grad' and inp.get('dtype', 'i8') not in ('f16', 'bf16', 'f32', 'f64'):
+        inp['dtype'] = rng.choice(['f32', 'f64'])
+    if inp.get('seed', 0) > 255 and inp.get('seed_type') not in ('int', 'i64', 'u64'):
+        inp['seed_type'] = 'i64'
+    if inp.get('seed_type') == 'u8':
+        inp['seed'] %= 200
+    if kind == 'obs' and inp.get('rs') and inp['n'] not in (0, 1):
+        inp['n'] = 1          # without a seed a second call may or may not hit "all identical"
+    s0 = rand_seq(rng, A, L, rng.random() < 0.3)
+    inp['seqs'] = [list(s0) if same_seq else rand_seq(rng, A, L, rng.random() < 0.3) for _b in range(B)]
+    if kind == 'enum':
+        n = inp.pop('n')
+        if n == 'omit':
+            inp['n'] = 'omit'
+        k = 20 if n == 'omit' else n
+        a, b = pyslice(L, *eff(dict(inp, plan=[[]]))[:2])
+        inp['plan'] = [[random_family(A, x[a:b], rng) for _i in range(k)] for x in inp['seqs']]
+        for key in ('seed', 'seed_type'):
+            inp.pop(key, None)
+    return inp
 
 
 def generate(tier, rng):
@@ -564,8 +809,15 @@ def generate(tier, rng):
         seqs = [rand_seq(rng, A, L, rng.random() < 0.4) for _b in range(B)]
         start, end = rand_region(rng, L)
         sd, st = pick_seed(rng)
-        yield {'kind': 'obs', 'A': A, 'seqs': seqs, 'start': start, 'end': end, 'n': n,
-               'seed': sd, 'seed_type': st, 'dtype': 'f32' if rng.random() < 0.2 else 'i8'}
+        c = {'kind': 'obs', 'A': A, 'seqs': seqs, 'start': start, 'end': end, 'n': n,
+             'seed': sd, 'seed_type': st, 'dtype': 'f32' if rng.random() < 0.2 else 'i8'}
+        if rng.random() < 0.25:
+            c['pos_type'] = 'np'
+        if rng.random() < 0.15:
+            c['xform'] = rng.choice(XFORMS[1:4])
+            if c['xform'] == 'expanded':
+                c['seqs'] = [list(seqs[0]) for _b in seqs]
+        yield c
     # ---------------- shuf (the permutation does not depend on the data: one batch of sequences
     # per alphabet and length, every region)
     for A in (2, 3, 4):
@@ -575,8 +827,11 @@ def generate(tier, rng):
             regions = [(st, en) for st in range(-2, L + 2) for en in range(-L - 2, L + 3)]
             for (st, en) in regions:
                 sd, sty = pick_seed(rng, big=False)
-                yield {'kind': 'shuf', 'A': A, 'seqs': seqs, 'start': st, 'end': en,
-                       'n': rng.choice([1, 2]), 'seed': sd, 'seed_type': sty}
+                c = {'kind': 'shuf', 'A': A, 'seqs': seqs, 'start': st, 'end': en,
+                     'n': rng.choice([1, 2]), 'seed': sd, 'seed_type': sty}
+                if rng.random() < 0.2:
+                    c['pos_type'] = 'np'
+                yield c
     for _ in range(150 if quick else 700):
         A = rng.choice([2, 3, 4, 4, 5, 8])
         L = rng.choice([3, 5, 8, 13, 21, 40, 80, 150, 300])
@@ -587,8 +842,19 @@ def generate(tier, rng):
         seqs = [rand_seq(rng, A, L, rng.random() < 0.4) for _b in range(B)]
         start, end = rand_region(rng, L)
         sd, st = pick_seed(rng)
-        yield {'kind': 'shuf', 'A': A, 'seqs': seqs, 'start': start, 'end': end, 'n': n,
-               'seed': sd, 'seed_type': st, 'dtype': 'f32' if rng.random() < 0.2 else 'i8'}
+        c = {'kind': 'shuf', 'A': A, 'seqs': seqs, 'start': start, 'end': end, 'n': n,
+             'seed': sd, 'seed_type': st, 'dtype': 'f32' if rng.random() < 0.2 else 'i8'}
+        if rng.random() < 0.25:
+            c['pos_type'] = 'np'
+        if rng.random() < 0.15:
+            c['xform'] = rng.choice(XFORMS[1:4])
+            if c['xform'] == 'expanded':
+                c['seqs'] = [list(seqs[0]) for _b in seqs]
+        yield c
+    # ---------------- forms: every accepted input form / argument type / default, one or two
+    # deviations from the plain call at a time (see design/C02.md "Coverage audit")
+    for _ in range(300 if quick else 1500):
+        yield form_case(rng)
     # ---------------- malformed inputs (both functions must reject; nothing may be modified)
     for _ in range(40 if quick else 200):
         A = rng.choice([2, 3, 4])
@@ -597,10 +863,22 @@ def generate(tier, rng):
         seqs[0][rng.randrange(L)] = rng.choice([-1, -2, -3])
         kind = rng.choice(['shuf', 'obs'])
         yield {'kind': kind, 'A': A, 'seqs': seqs, 'start': 0, 'end': L, 'n': 1, 'seed': 0}
+    # X that is not a tensor (numpy array, nested list): rejected, and left untouched
+    for _ in range(12 if quick else 40):
+        A = rng.choice([2, 4])
+        L = rng.randint(3, 9)
+        yield {'kind': rng.choice(['shuf', 'obs']), 'A': A, 'seqs': [rand_seq(rng, A, L) for _b in range(2)],
+               'start': 0, 'end': L, 'n': 1, 'seed': 0, 'xform': rng.choice(['numpy', 'list'])}
 
 
 def shrink(inp):
     B = len(inp['seqs'])
+    for key in ('xform', 'dtype', 'pos_type', 'n_type', 'verbose'):      # back to the plain form
+        if key in inp and inp.get(key) not in ('numpy', 'list'):
+            c = dict(inp)
+            del c[key]
+            if not (key == 'dtype' and inp.get('xform') == 'grad'):
+                yield c
     if B > 3:
         for lo, hi in ((0, B // 2), (B // 2, B)):
             c = dict(inp)
@@ -615,7 +893,7 @@ def shrink(inp):
             if inp['kind'] == 'enum':
                 c['plan'] = inp['plan'][:i] + inp['plan'][i + 1:]
             yield c
-    if inp['kind'] != 'enum' and inp.get('n', 1) > 1:
+    if inp['kind'] != 'enum' and isinstance(inp.get('n', 1), int) and inp.get('n', 1) > 1:
         c = dict(inp)
         c['n'] = inp['n'] // 2
         yield c
@@ -625,7 +903,8 @@ def shrink(inp):
         yield c
     # shorten from the right when the region is given by non-negative bounds inside the sequence
     L = len(inp['seqs'][0]) if inp['seqs'] else 0
-    if inp['kind'] != 'enum' and L > 1 and 0 <= inp['start'] and 0 <= inp['end'] < L:
+    if (inp['kind'] != 'enum' and L > 1 and isinstance(inp['start'], int) and isinstance(inp['end'], int)
+            and 0 <= inp['start'] and 0 <= inp['end'] < L):
         c = dict(inp)
         c['seqs'] = [s[:-1] for s in inp['seqs']]
         yield c
